@@ -4,6 +4,7 @@ import CookModel.Lemmas.SimBlocks
 import CookModel.Lemmas.SimEvents
 import CookModel.Lemmas.TrailingSpace
 import CookModel.Lemmas.SimEventsFull
+import CookModel.Lemmas.SimBlankLines
 /-
   C17  Line endings, comments and blank space do not change the recipe.
 
@@ -330,6 +331,47 @@ theorem C17_evSim_ingredient {α : Type} [Arith α] (cs : CharSpec) (i' i : Loc 
       obtain ⟨⟨hv, hl⟩, hunit⟩ := hx
       simp only [Option.map_some, hv, hl, hopt hunit]
 
+/-- **Extra blank / comment-only lines between blocks (token level).**  `IsLine l`: `l` is a run of
+    tokens without a newline token, closed by a newline token.  `EmptyLine E`: a complete line of
+    whitespace / comment tokens only — what a blank line and a comment-only line (`-- …`, `[- … -]`)
+    lex to.  `blocksOf ts` = the blocks `PullParser::next_block` cuts from `ts`
+    (`allBlocks (ts.length + 1) ts`).  Statement: let the stream consist of complete lines `L`, an
+    empty line `E0`, and any rest `X`; inserting a further empty line `E` directly after `E0`
+    yields the same list of blocks as the stream `Y` without it, block by block and token by token
+    up to any kind-preserving relation `R` between the stream behind the insertion (whose byte
+    offsets shift) and the original stream `Y`.  So blank-line skipping, the end of a multi-line
+    block at an empty line, single-line (`>>`, `=`) detection and trailing-newline trimming are all
+    blind to repeated empty lines. -/
+theorem C17_extra_blank_lines_blocks (R : Tok → Tok → Prop) (hR : ∀ a b, R a b → a.kind = b.kind)
+    (L : List (List Tok)) (hL : ∀ l ∈ L, IsLine l) (E0 E X : List Tok)
+    (hE0 : EmptyLine E0) (hE : EmptyLine E) (Y : List Tok) (hY : LRel R (L.flatten ++ (E0 ++ X)) Y) :
+    LRel (LRel R) (blocksOf (L.flatten ++ (E0 ++ (E ++ X)))) (blocksOf Y) :=
+  blocks_extra_empty_line_rel hR L hL E0 E X hE0 hE Y hY
+
+/-- the same with identical tokens: literally the same blocks -/
+theorem C17_extra_blank_lines_blocks_eq (L : List (List Tok)) (hL : ∀ l ∈ L, IsLine l) (E0 E X : List Tok)
+    (hE0 : EmptyLine E0) (hE : EmptyLine E) :
+    blocksOf (L.flatten ++ (E0 ++ (E ++ X))) = blocksOf (L.flatten ++ (E0 ++ X)) :=
+  blocks_extra_empty_line L hL E0 E X hE0 hE
+
+/-- an extra empty line at the very start of the recipe body: the same blocks -/
+theorem C17_leading_blank_line_blocks (R : Tok → Tok → Prop) (hR : ∀ a b, R a b → a.kind = b.kind)
+    (E X : List Tok) (hE : EmptyLine E) (Y : List Tok) (hY : LRel R X Y) :
+    LRel (LRel R) (blocksOf (E ++ X)) (blocksOf Y) :=
+  blocks_leading_empty_line_rel hR E X hE Y hY
+
+/-- **… and the same events.**  With `R := TokSim` (same kinds and texts, offsets free): the block
+    parsers run over the blocks of the stream with the extra empty line emit events related by
+    `EvSim` (same content, spans shifted) to those of the original stream. -/
+theorem C17_extra_blank_lines_events {α : Type} [Arith α] (cs : CharSpec) (hu : UwsNL cs) (ext : Ext) (oldStyle : Bool)
+    (L : List (List Tok)) (hL : ∀ l ∈ L, IsLine l) (E0 E X : List Tok)
+    (hE0 : EmptyLine E0) (hE : EmptyLine E) (Y : List Tok) (hY : LRel TokSim (L.flatten ++ (E0 ++ X)) Y)
+    (acc' acc : Array (Ev α) × Option String) (he : LRel (EvSim cs.uws) acc'.1.toList acc.1.toList) :
+    LRel (EvSim cs.uws)
+      ((blocksOf (L.flatten ++ (E0 ++ (E ++ X)))).foldl (fun a b => runBlock cs ext oldStyle b a.1 a.2) acc').1.toList
+      ((blocksOf Y).foldl (fun a b => runBlock cs ext oldStyle b a.1 a.2) acc).1.toList :=
+  foldl_runBlock_relF hu ext oldStyle (blocks_extra_empty_line_rel tokSim_kindPres L hL E0 E X hE0 hE Y hY) he
+
 /-! non-vacuity: a character table satisfying `CrlfSpec`, an input satisfying `CrlfSafe` on which
     `crlf` does something, and the excluded shape -/
 
@@ -376,5 +418,16 @@ example : (parseFrontmatter toyCharSpec "---\ntitle: x\n---\nAdd @salt{1%g}\n".t
 example : (parseFrontmatter toyCharSpec (crlf "---\ntitle: x\n---\nAdd @salt{1%g}\n".toList)).isSome = true := by decide
 example : ((parseFrontmatter toyCharSpec (crlf "---\ntitle: x\n---\nAdd @salt{1%g}\n".toList)).map (·.yamlText)) =
     some "title: x\r\n".toList := by decide
+
+/-! non-vacuity for the blank-line laws: the tokens of `a\n`, of a blank line and of a comment-only line -/
+example : IsLine [⟨.word, ['a'], 0⟩, ⟨.newline, ['\n'], 1⟩] :=
+  ⟨[⟨.word, ['a'], 0⟩], ⟨.newline, ['\n'], 1⟩, rfl, by decide, rfl⟩
+example : EmptyLine [⟨.ws, [' '], 2⟩, ⟨.newline, ['\n'], 3⟩] :=
+  ⟨⟨[⟨.ws, [' '], 2⟩], ⟨.newline, ['\n'], 3⟩, rfl, by decide, rfl⟩, by decide⟩
+example : EmptyLine [⟨.lineComment, ['-', '-', 'x'], 4⟩, ⟨.newline, ['\n'], 7⟩] :=
+  ⟨⟨[⟨.lineComment, ['-', '-', 'x'], 4⟩], ⟨.newline, ['\n'], 7⟩, rfl, by decide, rfl⟩, by decide⟩
+/-- "a\n \nb" and "a\n \n--x\nb": one block `a`, one block `b` either way -/
+example : (blocksOf ([⟨.word, ['a'], 0⟩, ⟨.newline, ['\n'], 1⟩] ++ ([⟨.ws, [' '], 2⟩, ⟨.newline, ['\n'], 3⟩] ++
+    ([⟨.lineComment, ['-', '-', 'x'], 4⟩, ⟨.newline, ['\n'], 7⟩] ++ [⟨.word, ['b'], 8⟩])))).length = 2 := by decide
 
 end Cook
